@@ -1,54 +1,202 @@
 (* Props/C08.v — vecdb: all read paths agree for every range and never panic.
-   Statements only.  `clean s = true` says the path neither panics nor decodes an element from
-   bytes outside the valid data; `yields s` are the elements it hands to the caller. *)
-From Anydb Require Import Common.Base Gen.Consts Gen.Sizes Vec.RdModel Vec.RdCursor Vec.RdComp Vec.RdProofs.
+   Statements only.  `good c s ys` (RdProofs): the path's event stream s hands exactly ys to the
+   caller, neither panics nor decodes bytes outside the valid data, and every byte range it fetches
+   ends at or below the region length; `cgood` is the same for the compressed vector.  `expected`
+   is the non-deleted part of the logical contents restricted to [from,to) ∩ [0,len) in index order,
+   `expected_one` the element of an index or nothing. *)
+From Anydb Require Import Common.Base Gen.Consts Gen.Sizes Vec.RdModel Vec.RdCursor Vec.RdComp Vec.RdProofs
+  Vec.RdCursorProofs Vec.RdCompProofs Vec.RdRefuted Vec.RdAgree.
 
-(* ---- full statements (for ALL well-formed states, ALL from/to, ALL sorted index lists) *)
-Definition C08_read_into_at_full : Prop :=
-  forall c from to, wf c -> yields (read_into_at c from to) = expected c from to /\ clean (read_into_at c from to) = true.
-Definition C08_fold_range_at_full : Prop :=
-  forall c from to, wf c -> yields (fold_range_at c from to) = expected c from to /\ clean (fold_range_at c from to) = true.
-Definition C08_try_fold_range_at_full : Prop :=
-  forall c from to, wf c -> yields (try_fold_range_at c from to) = expected c from to /\ clean (try_fold_range_at c from to) = true.
+(* ---- raw vector: ALL well-formed states (deleted slots, `updated` overlay, stored_len above the
+   on-disk length after a rollback), ALL from/to, both scan back-ends *)
+Theorem C08_read_into_at : forall c from to, wf c -> good c (read_into_at c from to) (expected c from to).
+Proof. exact read_into_at_good. Qed.
+Print Assumptions C08_read_into_at.
+
+Theorem C08_fold_range_at : forall c from to, wf c -> good c (fold_range_at c from to) (expected c from to).
+Proof. exact fold_range_at_good. Qed.
+Print Assumptions C08_fold_range_at.
+
+Theorem C08_try_fold_range_at : forall c from to, wf c -> good c (try_fold_range_at c from to) (expected c from to).
+Proof. exact try_fold_range_at_good. Qed.
+Print Assumptions C08_try_fold_range_at.
+
+(* the value a try_fold returns for the closure "accept k elements, then fail", for any good path *)
+Theorem C08_try_fold_early_exit : forall (P : acc -> Prop) k s ys, goodP P s ys ->
+  fst (try_run k s) = if k <? len ys then TEarly (take k ys) else TOk ys.
+Proof. exact try_run_good. Qed.
+Print Assumptions C08_try_fold_early_exit.
+
+Theorem C08_fold_dirty : forall c f t, wf c -> f <= t -> t <= rlen c ->
+  good c (fold_dirty c f t) (flat_map (V c) (seqN f (N.to_nat (t - f)))).
+Proof. exact fold_dirty_good. Qed.
+Print Assumptions C08_fold_dirty.
+
+Theorem C08_collect_one_at : forall c i, wf c -> good c (collect_one_at c i) (opt_list (expected_one c i)).
+Proof. exact collect_one_good. Qed.
+Print Assumptions C08_collect_one_at.
+
+Theorem C08_get_any : forall c i, wf c -> good c (get_any c i) (V c i).
+Proof. exact get_any_good. Qed.
+Print Assumptions C08_get_any.
+
+Theorem C08_collect_holed_range : forall c from to, wf c ->
+  Forall2 (fun s k => good c s (V c k)) (holed_range c from to)
+          (seqN (N.min from (rlen c)) (N.to_nat (N.min to (rlen c) - N.min from (rlen c)))).
+Proof. exact holed_range_good. Qed.
+Print Assumptions C08_collect_holed_range.
+
+(* read_at / read_at_once (repaired in 0cb3a2b): documented to ignore holes and updates *)
+Theorem C08_read_at_once : forall c i, wf c -> dirty c = false ->
+  good c (read_at_once c i) (opt_list (expected_one c i)).
+Proof. exact read_at_once_good. Qed.
+Print Assumptions C08_read_at_once.
+
+Theorem C08_read_ref_at : forall c i, wf c ->
+  good c (read_ref_at c i)
+    (if is_hole c i then [] else if r_stored c <=? i then [] else
+       match upd_get c i with Some _ => [] | None => V c i end).
+Proof. exact read_ref_at_good. Qed.
+Print Assumptions C08_read_ref_at.
+
+(* both scan back-ends over stored data (RawMmapSource, RawIoSource with its refill arithmetic) *)
+Theorem C08_fold_source : forall c f t, wf c -> f <= t -> t <= r_stored c -> not_expanded c ->
+  good c (fold_source c (r_stored c) f t) (flat_map (D c) (seqN f (N.to_nat (t - f)))).
+Proof. exact fold_source_good. Qed.
+Print Assumptions C08_fold_source.
+
+(* ---- stored-only paths (documented to ignore the overlays): states without a pending rollback
+   overlay; the unrestricted statements are refuted (C20_clone_after_rollback_refuted) *)
+Theorem C08_fold_stored_partial : forall io c from to, wf c -> not_expanded c ->
+  good c ((if io : bool then fold_stored_io else fold_stored_mmap) c from to)
+    (flat_map (D c) (seqN (N.min from (r_stored c)) (N.to_nat (N.min to (r_stored c) - N.min from (r_stored c))))).
+Proof. exact fold_stored_good. Qed.
+Print Assumptions C08_fold_stored_partial.
+
+Theorem C08_clone_read_into_partial : forall c from to, wf c -> not_expanded c ->
+  good c (ro_read_into c from to)
+    (flat_map (D c) (seqN (N.min from (r_stored c)) (N.to_nat (N.min to (r_stored c) - N.min from (r_stored c))))).
+Proof. exact ro_read_into_good. Qed.
+Print Assumptions C08_clone_read_into_partial.
+
+Theorem C08_clone_fold_range_partial : forall c from to, wf c -> not_expanded c ->
+  good c (ro_fold_range c from to)
+    (flat_map (D c) (seqN (N.min from (r_stored c)) (N.to_nat (N.min to (r_stored c) - N.min from (r_stored c))))).
+Proof. exact ro_fold_range_good. Qed.
+Print Assumptions C08_clone_fold_range_partial.
+
+(* ---- cursor, sorted reads, CachedVec: well-formed states WITHOUT deleted slots (with a deleted slot
+   the statements are refuted below); all index lists, sorted or not *)
+Theorem C08_read_sorted : forall c, wf c -> hole_free c -> forall idx,
+  exists a, read_sorted (raw_rvec c) idx = (ROk (flat_map (fun i => opt_list (expected_one c i)) idx), a)
+            /\ Forall (in_region c) a.
+Proof. exact raw_read_sorted. Qed.
+Print Assumptions C08_read_sorted.
+
+Theorem C08_cursor_get : forall c, wf c -> hole_free c -> forall cu i, Inv (raw_rvec c) (view c) cu ->
+  exists cu' a, cursor_get (raw_rvec c) cu i = (COpt (expected_one c i), cu', a)
+    /\ Inv (raw_rvec c) (view c) cu' /\ cu_pos cu' = cu_pos cu /\ Forall (in_region c) a.
+Proof. exact raw_cursor_get. Qed.
+Print Assumptions C08_cursor_get.
+
+Theorem C08_cursor_next : forall c, wf c -> hole_free c -> forall cu, Inv (raw_rvec c) (view c) cu ->
+  exists cu' a, cursor_next (raw_rvec c) cu = (COpt (expected_one c (cu_pos cu)), cu', a)
+    /\ Inv (raw_rvec c) (view c) cu'
+    /\ cu_pos cu' = (if cu_pos cu <? rlen c then cu_pos cu + 1 else cu_pos cu) /\ Forall (in_region c) a.
+Proof. exact raw_cursor_next. Qed.
+Print Assumptions C08_cursor_next.
+
+Theorem C08_cursor_fold : forall c, wf c -> hole_free c -> forall k, rlen c <= u64_max ->
+  exists cu' a, cursor_fold (raw_rvec c) cursor_new k = (CList (expected c 0 k), cu', a)
+    /\ cu_pos cu' = N.min k (rlen c) /\ Forall (in_region c) a.
+Proof. exact raw_cursor_fold. Qed.
+Print Assumptions C08_cursor_fold.
+
+Theorem C08_cached_fresh : forall c, wf c -> hole_free c -> forall from to,
+  exists d a, materialize (raw_rvec c) None = (ROk d, Some (rlen c, d), a) /\ Forall (in_region c) a
+    /\ cached_fold d from to = expected c from to /\ cached_read_into d from to = expected c from to
+    /\ (forall i, cached_one d i = expected_one c i).
+Proof. exact raw_cached_fresh. Qed.
+Print Assumptions C08_cached_fresh.
+
+(* ---- compressed vector, under the codec hypothesis (a page decodes to the values compressed into it:
+   pg_vals), all well-formed states, all from/to *)
+Theorem C08_comp_read_into_at : forall c, cwf c -> forall from to, cgood c (cread_into_at c from to) (cexpected c from to).
+Proof. exact cread_into_at_good. Qed.
+Print Assumptions C08_comp_read_into_at.
+
+Theorem C08_comp_read_stored_pages_into : forall c, cwf c -> forall f t, f < t -> t <= c_stored c ->
+  cgood c (read_stored_pages_into c f t) (flat_map (G c) (seqN f (N.to_nat (t - f)))).
+Proof. exact read_stored_pages_into_good. Qed.
+Print Assumptions C08_comp_read_stored_pages_into.
+
+(* fold / try_fold through CompressedMmapSource or CompressedIoSource (strict = the try_fold variant);
+   io_sized: every page is non-empty on disk and fits the 512 KiB IO buffer *)
+Theorem C08_comp_fold_range_at : forall c, cwf c -> forall strict from to, io_sized c ->
+  cgood c (cfold_range_at strict c from to) (cexpected c from to).
+Proof. exact cfold_range_at_good. Qed.
+Print Assumptions C08_comp_fold_range_at.
+
+Theorem C08_comp_mmap_source : forall c, cwf c -> forall strict f t, f <= t -> t <= c_stored c ->
+  cgood c (cmmap_src strict c (c_stored c) f t) (flat_map (G c) (seqN f (N.to_nat (t - f)))).
+Proof. exact cmmap_src_good. Qed.
+Print Assumptions C08_comp_mmap_source.
+
+Theorem C08_comp_io_source : forall c, cwf c -> forall strict f t, io_sized c -> f <= t -> t <= c_stored c ->
+  cgood c (cio_src strict c (c_stored c) f t) (flat_map (G c) (seqN f (N.to_nat (t - f)))).
+Proof. exact cio_src_good. Qed.
+Print Assumptions C08_comp_io_source.
+
+Theorem C08_comp_collect_one_at : forall c, cwf c -> forall i, io_sized c ->
+  cgood c (ccollect_one_at c i) (if i <? clen c then G c i else []).
+Proof. exact ccollect_one_at_good. Qed.
+Print Assumptions C08_comp_collect_one_at.
+
+Theorem C08_comp_clone_read_into : forall c, cwf c -> forall from to,
+  cgood c (cro_read_into c from to)
+    (flat_map (G c) (seqN (N.min from (c_stored c)) (N.to_nat (N.min to (c_stored c) - N.min from (c_stored c))))).
+Proof. exact cro_read_into_good. Qed.
+Print Assumptions C08_comp_clone_read_into.
+
+Theorem C08_comp_read_sorted : forall c, cwf c -> forall idx,
+  exists a, read_sorted (comp_rvec c) idx = (ROk (flat_map (fun i => opt_list (cview c i)) idx), a)
+            /\ Forall (in_cregion c) a.
+Proof. exact comp_read_sorted. Qed.
+Print Assumptions C08_comp_read_sorted.
+
+Theorem C08_comp_cursor_fold : forall c, cwf c -> forall k, clen c <= u64_max ->
+  exists cu' a, cursor_fold (comp_rvec c) cursor_new k = (CList (cexpected c 0 k), cu', a)
+    /\ cu_pos cu' = N.min k (clen c) /\ Forall (in_cregion c) a.
+Proof. exact comp_cursor_fold. Qed.
+Print Assumptions C08_comp_cursor_fold.
+
+(* ---- the conjunction of what is proved *)
+Theorem C08_agree : forall c, wf c -> agree_raw c.
+Proof. exact agree_raw_proved. Qed.
+Print Assumptions C08_agree.
+
+Theorem C08_agree_compressed : forall c, cwf c -> io_sized c -> agree_comp c.
+Proof. exact agree_comp_proved. Qed.
+Print Assumptions C08_agree_compressed.
+
+(* ---- full statements that stay open or are refuted *)
+(* refuted for states with a deleted slot (witnesses below); proved for hole-free states above *)
 Definition C08_read_sorted_full : Prop :=
   forall c idx, wf c -> fst (read_sorted (raw_rvec c) idx) = ROk (flat_map (fun i => opt_list (expected_one c i)) idx).
 Definition C08_cursor_fold_full : Prop :=
   forall c n, wf c -> fst (fst (cursor_fold (raw_rvec c) cursor_new n)) = CList (expected c 0 n).
+(* refuted: the cache key is (len, version) *)
 Definition C08_cached_full : Prop :=
   forall c0 c from to, wf c0 -> wf c -> rlen c0 = rlen c ->
   forall k, snd (fst (materialize (raw_rvec c0) None)) = k ->
   exists d, fst (fst (materialize (raw_rvec c) k)) = ROk d /\ cached_fold d from to = expected c from to.
-Definition C08_compressed_read_into_full : Prop :=
-  forall c from to, cwf_b c = true -> yields (cread_into_at c from to) = cexpected c from to /\ clean (cread_into_at c from to) = true.
-Definition C08_agree_full : Prop :=
-  C08_read_into_at_full /\ C08_fold_range_at_full /\ C08_try_fold_range_at_full /\ C08_read_sorted_full
-  /\ C08_cursor_fold_full /\ C08_cached_full /\ C08_compressed_read_into_full.
+(* open: arbitrary scripts of cursor operations.  Proved: each operation's specification together with
+   the preservation of the cursor invariant Inv (C08_cursor_get / _next, cursor_fold_spec, advance_inv);
+   missing: the induction over the operation list that strings them together. *)
+Definition C08_cursor_script_full : Prop :=
+  forall c ops, wf c -> hole_free c -> rlen c <= u64_max ->
+  forall o, In o (fst (cursor_script (raw_rvec c) cursor_new ops)) -> o <> CPanic /\ o <> CHang /\ o <> CGarbage.
 
-(* ---- proved for all well-formed states and all indices: the index-addressed raw paths *)
-Theorem C08_get_any :
-  forall c i, wf c ->
-  yields (get_any c i) = opt_list (view c i) /\ clean (get_any c i) = true /\ accesses_ok c (get_any c i).
-Proof. exact get_any_correct. Qed.
-Print Assumptions C08_get_any.
-
-Theorem C08_collect_one_at :
-  forall c i, wf c ->
-  yields (collect_one_at c i) = opt_list (expected_one c i)
-  /\ clean (collect_one_at c i) = true /\ accesses_ok c (collect_one_at c i).
-Proof. exact collect_one_correct. Qed.
-Print Assumptions C08_collect_one_at.
-
-(* the stored-only pointer scan: all from/to, states whose stored indices are all on disk.
-   Missing for the full range statements: fold_dirty, the IO source, the pushed tail. *)
-Theorem C08_fold_stored_mmap_partial :
-  forall c from to, not_expanded c ->
-  yields (fold_stored_mmap c from to) = slice (N.min from (r_stored c)) (N.min to (r_stored c)) (r_disk c)
-  /\ clean (fold_stored_mmap c from to) = true
-  /\ accesses_ok c (fold_stored_mmap c from to).
-Proof. exact fold_stored_mmap_ok. Qed.
-Print Assumptions C08_fold_stored_mmap_partial.
-
-(* ---- refuted by the faithful model (each witness is also a replay in corpus/C08) *)
 Theorem C08_read_sorted_refuted : wf w_holed /\ fst (read_sorted (raw_rvec w_holed) [3]) = RPanic.
 Proof. exact read_sorted_refuted_panic. Qed.
 Print Assumptions C08_read_sorted_refuted.
@@ -62,11 +210,6 @@ Theorem C08_cursor_fold_refuted : wf w_holed /\ fst (fst (cursor_fold (raw_rvec 
 Proof. exact cursor_fold_refuted_hang. Qed.
 Print Assumptions C08_cursor_fold_refuted.
 
-Theorem C08_fold_dirty_refuted :
-  wf w_past /\ fst (run (read_into_at w_past 4 6)) = RPanic /\ expected w_past 4 6 = [14; 15].
-Proof. exact fold_dirty_refuted_panic. Qed.
-Print Assumptions C08_fold_dirty_refuted.
-
 Theorem C08_cached_stale_refuted :
   exists k, snd (fst (materialize (raw_rvec w_before) None)) = k
   /\ fst (fst (materialize (raw_rvec w_after) k)) = ROk [10; 11; 12]
@@ -79,3 +222,8 @@ Theorem C08_cached_shift_refuted :
   /\ cached_one [10; 12; 13] 1 = Some 12 /\ expected_one w_holed 1 = None.
 Proof. exact cached_refuted_shift. Qed.
 Print Assumptions C08_cached_shift_refuted.
+
+Theorem C08_clone_ignores_deleted_refuted :
+  wf w_holed /\ fst (run (ro_collect_one w_holed 1)) = ROk [11] /\ expected_one w_holed 1 = None.
+Proof. exact clone_ignores_holes_refuted. Qed.
+Print Assumptions C08_clone_ignores_deleted_refuted.
